@@ -428,6 +428,16 @@ class World:
                         if need and any(g < need - 1e-6 for g in gaps):
                             r.violation(f'C16/transaction-delay-not-honoured/{scen["kind"]}', f'{key}: requested {need} s between commands, device saw gaps {[round(g, 4) for g in gaps]}', case)
                             return
+                        # the delay after the LAST command belongs to the transaction as well: nobody else's command follows sooner
+                        if need and idx[-1] + 1 < len(seq):
+                            nxt = names[idx[-1] + 1]
+                            tn = cmdtime.get(nxt)
+                            if tn is not None and nxt not in (b'IDN', 'IDN', b'QIDN____'):
+                                r.count('transaction_trailing_delays_checked')
+                                if tn - times[-1] < need - 1e-6:
+                                    r.violation(f'C16/transaction-delay-not-honoured/after-the-last-command/{scen["kind"]}',
+                                                f'{key}: requested {need} s after each command, the next command ({nxt!r}) was written {tn - times[-1]:.4f} s after the last one of the transaction', case)
+                                    return
             else:
                 cls, text = rec_['error']
                 if not faulty:
